@@ -1,12 +1,15 @@
 #!/bin/sh
-# tools/replay_seeds.sh  -- apply every stored seeded change to the tree under test (ZK_REPO, default /repo; one at a time), run all
-# quick checks, undo; every change must be reported by at least one check, and "own" says whether the check of the property the
-# change was written for is among them (the superseded one is skipped when it no longer applies)
+# tools/replay_seeds.sh [name-regex]  -- apply every stored seeded change (optionally only those whose directory name matches the regex)
+# to the tree under test (ZK_REPO, default /repo; one at a time), run all quick checks, undo; every change must be reported by at least
+# one check, and "own" says whether the check of the property the change was written for is among them (the superseded one is skipped
+# when it no longer applies). Several instances can run side by side on different trees (ZK_REPO).
 R=${ZK_REPO:-/repo}; export ZK_REPO=$R
+RX=${1:-.}
 [ -z "$(git -C $R status --porcelain)" ] || { echo "$R not clean"; exit 3; }
 miss=0; notown=0
 for d in /verif/seeded/*/; do
   n=$(basename "$d"); own=$(echo "$n" | cut -c1-3)
+  echo "$n" | grep -Eq "$RX" || continue
   git -C $R apply "$d/patch.diff" 2>/dev/null || { echo "SKIP   $n (does not apply)"; continue; }
   out=$(/verif/check all 2>&1 | grep -E "^C[0-9]+:.* [1-9][0-9]* violations" | cut -d: -f1 | tr '\n' ' ')
   git -C $R checkout -- .
